@@ -128,6 +128,9 @@ class Run:
                 print("MACHINERY-FAILURE: %s" % str(m.get("msg"))[:2000])
             print("check %s: machinery failure (exit 2)" % self.prop)
             return 2
+        for n in self.notes:
+            if str(n).startswith("NOTE "):
+                print(n)
         for l in lines:
             print(l)
         print("check %s %s: %d evaluations, %d TLC states, %d violations (distinct keys), %d known findings, %.1fs" % (
